@@ -1,4 +1,5 @@
 mod common;
+mod c20;
 mod c07;
 mod c06;
 mod c09;
@@ -49,6 +50,7 @@ fn main() {
         "C06" => c06::run(&args),
         "C07" => c07::run(&args),
         "C07child" => c07::child_run(&args.rest),
+        "C20" => c20::run(&args),
         x => {
             eprintln!("unknown property {}", x);
             std::process::exit(2);
